@@ -82,16 +82,18 @@ def steer(spec, choices):
     r["styles"].pop("Display", None) if name != "Display" else None
     r["anims"] = [a for a in r["anims"] if a[0] not in (name, "Display")] + [(name, b, e, reveal)]
     r["begin"] = None
-  # value-equal animation steps on elements with different intervals (equal steps are equal objects for a cache keyed by value)
-  if spec["body"] is not None:
-    donors = [n for n in gen_model.walk(spec["body"]) if n["kind"] != "text" and n["anims"]]
-    if donors:
-      step = donors[0]["anims"][0]
-      for n in gen_model.walk(spec["body"]):
-        if n is not donors[0] and n["kind"] in ("div", "p", "span") and (n["begin"] is not None or n["end"] is not None) and \
-            not any(a[0] == step[0] for a in n["anims"]) and (step[0] != "Display" or n["kind"] != "span"):
-          n["anims"] = n["anims"] + [step]
-          break
+  # value-equal animation steps on two siblings that are active one after the other (equal steps are equal objects for a cache
+  # keyed by value): the first sibling ends at 2 s, the second begins at 3 s, each carries the step (Color, begin 1 s, red)
+  if spec["body"] is not None and choices and choices[0][0] in (None, 0, 1):
+    for n in gen_model.walk(spec["body"]):
+      kids = [k for k in n["kids"] if k["kind"] in ("div", "p", "span")]
+      if len(kids) >= 2:
+        a, b = kids[0], kids[1]
+        a["begin"], a["end"] = None, gen_model.F(2)
+        b["begin"], b["end"] = gen_model.F(3), None
+        for k in (a, b):
+          k["anims"] = [x for x in k["anims"] if x[0] != "Color"] + [("Color", gen_model.F(1), None, RED)]
+        break
   return spec
 
 
@@ -169,6 +171,9 @@ def check(case, res):
   res.label("regions:%d" % min(2, len(spec["regions"])))
   if any(a[0] in ("BackgroundColor", "Opacity", "Visibility", "ShowBackground") for r in spec["regions"] for a in r["anims"]):
     res.label("region-background-animated")
+  steps = [a for n in gen_model.all_nodes(spec) if n["kind"] != "text" for a in n["anims"]]
+  if len(set(map(repr, steps))) < len(steps):
+    res.label("value-equal-animation-steps")
   for i, op in enumerate(ops):
     res.evals += 1
     r1 = apply(st_, op, times)
